@@ -10,7 +10,7 @@ from .common import Spec, Claims, i2m, in_nets
 PROPERTY = "C14"
 BOUNDS = ("(i) lists of 2 networks with BOTH bases free over 2^32 and prefix lengths from {0,8,23,24,25,31,32} "
           ": every relation the algorithm tests is reached by forking; (ii) lists of 2..4 (quick) / 2..5 (thorough) "
-          "networks from 14 relation templates over ONE free base (siblings, sibling chains merging twice and three times, nested, "
+          "networks from 18 relation templates over ONE free base (siblings, sibling chains merging twice and three times, nested, "
           "duplicates, adjacent non-siblings, disjoint, merge result covering a later element, /31+/32, /1 halves, /0) in all orders "
           "(4-element lists: all 24 orders thorough, 12 seeded orders quick); both address classes, both platforms.")
 ASSUMPTIONS = ["address_ag.collapse on IOS raising ValueError when the result is 0.0.0.0/0 is a refusal (an IOS object-group cannot "
@@ -28,7 +28,7 @@ def _pool(ctx):
         "S1": (q(a2, 0), 25), "S2": (q(a2, 128), 25), "S3": (q(a2 ^ 1, 0), 24), "N1": (q(a2, 64), 26), "D": (q(a2, 0), 25),
         "H1": (q(a2, 4), 32), "H2": (q(a2, 5), 32), "H3": (q(a2, 6), 31), "ADJ": (q(a2, 128), 26),
         "DIS": ([a0 ^ 128, a1, a2, 0], 24), "Z0": ([0, 0, 0, 0], 1), "Z1": ([128, 0, 0, 0], 1), "ANY": ([0, 0, 0, 0], 0),
-        "W": (q(a2, 0), 24),
+        "W": (q(a2, 0), 24), "ADJd": (q(a2, 128), 26), "Q1": (q(a2, 128), 27), "Q1h": (q(a2, 128), 32), "Q2": (q(a2, 192), 27),
     }
 
 
@@ -37,6 +37,7 @@ TEMPLATES = {
     "disj": ["S1", "DIS"], "hosts": ["H1", "H2", "H3"], "mix4": ["S1", "S2", "N1", "H1"], "chain-dup": ["S3", "S2", "S1", "D"],
     "halves": ["Z0", "Z1"], "any": ["ANY", "S1"], "hosts-in": ["H1", "H2", "S1"], "cover-later": ["N1", "ADJ", "S2"],
     "chain-disj": ["S1", "S2", "S3", "DIS"], "whole-then-parts": ["W", "S1", "S2"],
+    "dup-half-sibling": ["ADJ", "ADJd", "S1"], "nested-half-sibling": ["ADJ", "Q1", "Q1h", "S1"], "quarters": ["Q1", "Q2", "ADJ", "S1"],
 }
 
 
